@@ -1,8 +1,11 @@
 // C16: DelayedDestructor destroys late, once, and never under its own lock
+// The program shape is fixed per query by macros (a symbolic program made symbolic execution blow up, DESIGN §8); what stays
+// symbolic is the schedule: where the adder, the external owner and the destroyer are pre-empted, and which try_lock_for times out.
 #include "gmlc/concurrency/DelayedDestructor.hpp"
 #include "vp.h"
 using namespace gmlc::concurrency;
-enum { G_EXT1 = 0 /* external owner of object k still holds it (1) */, G_EXT2 = 1, G_CB = 2 /* callback invocations */, G_REENTER = 3 };
+enum { G_EXT1 = 0 /* external owner of object k still holds it (1) */, G_EXT2 = 1, G_CB1 = 2 /* callback invocations for object k */, G_CB2 = 3,
+       G_DEAD1 = 4, G_DEAD2 = 5, G_IN1 = 6 /* the hand-over of object k has returned */, G_IN2 = 7 };
 struct X;
 #ifdef SINGLE
 using DD = DelayedDestructorSingleThread<X>;
@@ -16,21 +19,24 @@ VP_INLINE bool i_own_lock() noexcept
     return false;
 #else
     // destructionLock is the first member (std::timed_mutex over a pthread_mutex_t)
-    return vp_mutex_owner(reinterpret_cast<const char*>(g_dd)) == vp_tid() + 1;
+    return g_dd != nullptr && vp_mutex_owner(reinterpret_cast<const char*>(g_dd)) == vp_tid() + 1;
 #endif
 }
 struct X {
     int id;
-    explicit X(int i) noexcept: id(i) { vp_tab_add(0, this); }
+    explicit X(int i) noexcept: id(i) {}
     X(const X&) = delete;
     ~X()
     {
-        vp_tab_del(0, this);                                   // exactly once (table asserts double destroy)
-        vp_assert(vp_g(id == 1 ? G_EXT1 : G_EXT2) == 0, 1600);  // never while another owner still holds it
-        vp_assert(!i_own_lock(), 1601);                        // never under the container's internal lock
-        if (vp_g(G_REENTER) && g_dd != nullptr) {
-            (void)g_dd->size();                                // re-entry from a destructor must not self-deadlock
-        }
+        vp_assert(vp_gadd(id == 1 ? G_DEAD1 : G_DEAD2, 1) == 1, 1604);   // exactly once
+        vp_assert(vp_g(id == 1 ? G_EXT1 : G_EXT2) == 0, 1600);           // never while another owner still holds it
+        vp_assert(!i_own_lock(), 1601);                                  // never under the container's internal lock
+#ifdef WITH_CALLBACK
+        if (vp_g(id == 1 ? G_IN1 : G_IN2)) vp_assert(vp_g(id == 1 ? G_CB1 : G_CB2) == 1, 1605);   // the callback ran once before a handed-over object went
+#endif
+#ifdef REENTER
+        if (g_dd != nullptr) (void)g_dd->size();                         // re-entry from a destructor must not self-deadlock
+#endif
     }
 };
 extern "C" {
@@ -39,13 +45,15 @@ std::shared_ptr<X>* g_ext1;
 std::shared_ptr<X>* g_ext2;
 void vp_setup()
 {
-    vp_gset(G_REENTER, vp_nondet_bool());
 #ifdef WITH_CALLBACK
     g_dd = new DD([](std::shared_ptr<X>& p) {
-        vp_gadd(G_CB, 1);
-        vp_assert(p && vp_tab_has(0, p.get()), 1602);          // runs before the object is destroyed
-        vp_assert(!i_own_lock(), 1603);
-        if (vp_g(G_REENTER)) (void)g_dd->size();
+        vp_assert(static_cast<bool>(p), 1602);
+        vp_assert(vp_g(p->id == 1 ? G_DEAD1 : G_DEAD2) == 0, 1606);      // runs before the object is destroyed
+        vp_assert(vp_gadd(p->id == 1 ? G_CB1 : G_CB2, 1) == 1, 1607);    // once per object
+        vp_assert(!i_own_lock(), 1603);                                  // outside the lock
+#ifdef REENTER
+        (void)g_dd->size();
+#endif
     });
 #else
     g_dd = new DD();
@@ -54,57 +62,102 @@ void vp_setup()
     g_ext2 = new std::shared_ptr<X>(std::make_shared<X>(2));
     vp_gset(G_EXT1, 1);
     vp_gset(G_EXT2, 1);
-}
-// sequential life cycle: add both, drop external references at symbolic points, destroy, check
-void vp_seq()
-{
-    g_dd->addObjectsToBeDestroyed(*g_ext1);
-    vp_assert(g_dd->size() == 1, 1610);
-    bool drop1_early = vp_nondet_bool();
-    if (drop1_early) { vp_gset(G_EXT1, 0); g_ext1->reset(); }
+#ifdef PRELOAD2
+    // object 2 is already waiting, its external owner gone: the first destroyObjects reaps it
     g_dd->addObjectsToBeDestroyed(*g_ext2);
-    size_t left = g_dd->destroyObjects();
-    vp_assert(left == (drop1_early ? 1u : 2u), 1611);          // only unowned objects are reaped
-    vp_assert(vp_tab_count(0) == (drop1_early ? 1 : 2), 1612);
-    if (!drop1_early) { vp_gset(G_EXT1, 0); g_ext1->reset(); }
-    bool drop2 = vp_nondet_bool();
-    if (drop2) { vp_gset(G_EXT2, 0); g_ext2->reset(); }
-    left = g_dd->destroyObjects();
-    vp_assert(left == (drop2 ? 0u : 1u), 1613);
-    vp_assert(vp_tab_count(0) == (drop2 ? 0 : 1), 1614);
-#ifdef WITH_CALLBACK
-    vp_assert(vp_g(G_CB) == (drop2 ? 2 : 1), 1615);            // once before each reaped object
+    vp_gset(G_IN2, 1);
+    vp_gset(G_EXT2, 0);
+    g_ext2->reset();
 #endif
-    if (!drop2) { vp_gset(G_EXT2, 0); g_ext2->reset(); }
-    DD* d = g_dd;
-    delete d;                                                   // at the latest now everything is destroyed
-    g_dd = nullptr;
-    vp_assert(vp_tab_count(0) == 0, 1616);
-    vp_cover(0);
 }
-// concurrent: adder, external owner dropping, destroyer
+// adder: hands object 1 over, then lets go of it
 void vp_adder()
 {
     g_dd->addObjectsToBeDestroyed(*g_ext1);
+    vp_gset(G_IN1, 1);
     vp_gset(G_EXT1, 0);
     g_ext1->reset();
+#ifdef ADDER_DESTROYS
+    (void)g_dd->destroyObjects();
+#endif
     vp_cover(0);
 }
 void vp_destroyer()
 {
     size_t n = g_dd->destroyObjects();
-    (void)n;
+    vp_assert(n == static_cast<size_t>(-1) || n <= 2, 1620);
     size_t s = g_dd->size();
-    vp_assert(s <= 1, 1620);
+    vp_assert(s <= 2, 1621);
     vp_cover(1);
+}
+// external owner of object 2 (added by the setup or by this thread) dropping it at some point
+void vp_owner2()
+{
+#ifndef PRELOAD2
+    g_dd->addObjectsToBeDestroyed(*g_ext2);
+    vp_gset(G_IN2, 1);
+    vp_gset(G_EXT2, 0);
+    g_ext2->reset();
+#endif
+    size_t s = g_dd->size();
+    vp_assert(s <= 2, 1622);
+    vp_cover(2);
 }
 void vp_final()
 {
+    if (vp_g(G_EXT1)) {   // (a thread that did not finish inside the bound keeps its reference: not part of the final claim)
+        vp_gset(G_EXT1, 0);
+        g_ext1->reset();
+    }
+    if (vp_g(G_EXT2)) {
+        vp_gset(G_EXT2, 0);
+        g_ext2->reset();
+    }
+    size_t left = g_dd->size();
+    int dead = vp_g(G_DEAD1) + vp_g(G_DEAD2);
+    int handed = vp_g(G_IN1) + vp_g(G_IN2);
+    vp_assert(static_cast<int>(left) + dead <= 2, 1623);                 // nothing duplicated
+    vp_assert(static_cast<int>(left) + dead >= handed, 1625);            // nothing lost: a handed-over object is waiting or was destroyed
+#ifdef FINAL_DELETE
+    DD* d = g_dd;
+    delete d;                                                            // at the latest now everything handed over is destroyed
+    g_dd = nullptr;
+    vp_assert(vp_g(G_DEAD1) == vp_g(G_IN1) && vp_g(G_DEAD2) == vp_g(G_IN2), 1624);   // nothing lost, nothing destroyed twice (1604)
+#else
+    size_t l2 = g_dd->destroyObjects();                                  // all owners are gone: one pass reaps everything
+    vp_assert(l2 == 0, 1626);
+    vp_assert(vp_g(G_DEAD1) >= vp_g(G_IN1) && vp_g(G_DEAD2) >= vp_g(G_IN2), 1624);
+#endif
+}
+// sequential life cycle (both classes): add, reap only unowned objects, callbacks, destruction reaps the rest
+void vp_seq()
+{
+    g_dd->addObjectsToBeDestroyed(*g_ext1);
+    vp_gset(G_IN1, 1);
+    vp_assert(g_dd->size() == 1, 1610);
+#ifdef DROP1_EARLY
+    vp_gset(G_EXT1, 0);
+    g_ext1->reset();
+#endif
+    g_dd->addObjectsToBeDestroyed(*g_ext2);
+    vp_gset(G_IN2, 1);
+    size_t left = g_dd->destroyObjects();
+#ifdef DROP1_EARLY
+    vp_assert(left == 1 && vp_g(G_DEAD1) == 1 && vp_g(G_DEAD2) == 0, 1611);   // only unowned objects are reaped
+#else
+    vp_assert(left == 2 && vp_g(G_DEAD1) == 0 && vp_g(G_DEAD2) == 0, 1611);
+    vp_gset(G_EXT1, 0);
+    g_ext1->reset();
+#endif
+#ifdef DROP2
     vp_gset(G_EXT2, 0);
     g_ext2->reset();
-    DD* d = g_dd;
-    delete d;
-    g_dd = nullptr;
-    vp_assert(vp_tab_count(0) == 0, 1621);                      // nothing lost, nothing duplicated (tables)
+    left = g_dd->destroyObjects();
+    vp_assert(left == 0 && vp_g(G_DEAD1) == 1 && vp_g(G_DEAD2) == 1, 1613);
+#else
+    left = g_dd->destroyObjects();
+    vp_assert(left == 1 && vp_g(G_DEAD1) == 1 && vp_g(G_DEAD2) == 0, 1613);
+#endif
+    vp_cover(0);
 }
 }
